@@ -330,7 +330,8 @@ def finish(res):
         for s in a["samples"][:2]:
             samples.append(dict(harness=name, bounds=hs[name].bounds, **s))
     ev = dict(
-        property_id=pid, tier=tier, seed=res["seed"], level="model_checking",
+        property_id=pid, tier=tier, seed=res["seed"],
+        level=getattr(res["mod"], "LEVEL", "model_checking"),
         coverage=dict(
             evaluations=max(total_q + sum(a["checks"] for a in agg.values()),
                             1),
